@@ -1571,6 +1571,18 @@ def metacall():
                 # System Predicate string
                 return Predicate.System(arg)
 
+        if cls is Predicate and spec:
+            # System Predicate spec, e.g. when rebuilding from spec or ident
+            # after the original has left the cache.
+            coords = spec[0] if len(spec) == 1 else spec
+            if isinstance(coords, tuple) and len(coords) == 3:
+                try:
+                    syspred = Predicate.System.get(coords, None)
+                except TypeError:
+                    syspred = None
+                if syspred is not None:
+                    return syspred
+
         # Invoked class name.
         clsname = cls.__name__
         
